@@ -9,6 +9,7 @@ import (
 	"strings"
 
 	"github.com/lidofinance/dc4bc/client/api/dto"
+	"github.com/lidofinance/dc4bc/client/modules/keystore"
 	"github.com/lidofinance/dc4bc/client/types"
 	"github.com/lidofinance/dc4bc/fsm/fsm"
 	spf "github.com/lidofinance/dc4bc/fsm/state_machines/signature_proposal_fsm"
@@ -30,6 +31,9 @@ type c14Scenario struct {
 	Log    []storage.Message // board content (the node's offset is behind its end)
 	API    func(nd *world.Node) error
 	APITag string
+	// identity override (scenarios not taken from the standard recording)
+	Name2 string
+	Key   *keystore.KeyPair
 }
 
 var boardIDRe14 = regexp.MustCompile(`"id":"[^"]*","dkg_round_id":"([^"]*)","offset":\d+`)
@@ -168,6 +172,11 @@ func c14(tier string, args []string) int {
 			}
 		}
 	}
+	// finishing a reinitialisation (operation_processed_successfully writes the polynomial into
+	// the round) while the poller applies the first signing proposal of the reinitialised round
+	if sc, ok := reinitScenario(r); ok {
+		scenarios = append(scenarios, sc)
+	}
 	if tier != "thorough" && len(scenarios) > 14 {
 		// quick tier: one scenario per (request kind, message kind) pair
 		seen := map[string]bool{}
@@ -197,6 +206,55 @@ func c14(tier string, args []string) int {
 	return finish(r)
 }
 
+// reinitScenario builds: node 1 of a reinitialised (2,2) deployment holds the pending reinit
+// operation; node 0 already finished its reinitialisation and proposed a batch.
+func reinitScenario(r *kit.Run) (c14Scenario, bool) {
+	rec := getRecording(r, 2, 2)
+	om := materialOf(rec, 2)
+	w2, err := world.NewWorldCustom(om.Names, om.Mnemonics, "reinit-key:")
+	if err != nil {
+		r.Infra("world: %v", err)
+	}
+	newKeys := map[string][]byte{}
+	for _, nd := range w2.Nodes {
+		newKeys[nd.Name] = nd.KeyPair.Pub
+	}
+	re, err := types.GenerateReDKGMessage(om.Log, newKeys)
+	if err != nil {
+		r.Infra("reinit file: %v", err)
+	}
+	payload, _ := json.Marshal(re)
+	if err := w2.Nodes[0].Svc.ReInitDKG(&dto.ReInitDKGDTO{ID: re.DKGID, Payload: payload}); err != nil {
+		r.Infra("reinit: %v", err)
+	}
+	if err := w2.DrainAll(); err != nil {
+		r.Infra("drain: %v", err)
+	}
+	// node 0 completes, then proposes
+	for _, op := range w2.Nodes[0].PendingOps() {
+		if err := w2.Operate(0, op.ID); err != nil {
+			r.Infra("node 0 reinit: %v", err)
+		}
+	}
+	ops1 := w2.Nodes[1].PendingOps()
+	if len(ops1) != 1 {
+		r.Infra("node 1 should hold the reinit operation, has %d", len(ops1))
+	}
+	res, err := w2.Airs[1].Process(ops1[0])
+	if err != nil {
+		r.Infra("machine 1 reinit: %v", err)
+	}
+	base := w2.Nodes[1].Mem.Snapshot()
+	w2.Propose(0, re.DKGID, "after-reinit-batch", world.SimpleTasks("arb", []byte("x")))
+	log := w2.Board.Log()
+	view := w2.Nodes[1]
+	sc := c14Scenario{Name: "node1 finish-reinit || one poll tick over the first signing proposal", View: 1, Base: base, Log: log, APITag: "finish-reinit",
+		API:  func(nd *world.Node) error { return nd.SubmitResult(cloneOp15(res)) },
+		Name2: view.Name, Key: view.KeyPair}
+	w2.Close()
+	return sc, true
+}
+
 func runC14(r *kit.Run, rec *world.Recording, sc c14Scenario, bound int) (int, int) {
 	w := rec.W
 	mem := world.NewMemState(world.Topic)
@@ -212,7 +270,11 @@ func runC14(r *kit.Run, rec *world.Recording, sc c14Scenario, bound int) (int, i
 			vsched.Yield("board." + op)
 		}
 	}
-	nd, err := world.NewNodeOver(w.Nodes[sc.View].Name, w.Nodes[sc.View].KeyPair, &world.HookedState{Inner: mem, Hook: hook}, handle)
+	name, kp := w.Nodes[sc.View].Name, w.Nodes[sc.View].KeyPair
+	if sc.Key != nil {
+		name, kp = sc.Name2, sc.Key
+	}
+	nd, err := world.NewNodeOver(name, kp, &world.HookedState{Inner: mem, Hook: hook}, handle)
 	if err != nil {
 		r.Infra("node: %v", err)
 	}
